@@ -2130,3 +2130,31 @@ mod tests_parse {
         show!(matrix);
     }
 }
+
+/// （验证钩子）逐步驱动「多输入解析」所复用的解析状态，并可观察其残留的「中间解析结果」
+/// * `step`即[`NarseseFormat::parse_multi`]循环体的两行
+#[cfg(feature = "verif_hooks")]
+pub mod verif_hooks {
+    use super::*;
+
+    pub struct MultiParser<'a> {
+        state: ParseState<'a, &'a str>,
+    }
+
+    impl<'a> MultiParser<'a> {
+        pub fn new(format: &'a NarseseFormat<&'a str>) -> Self {
+            Self {
+                state: format.build_parse_state(""),
+            }
+        }
+
+        pub fn step(&mut self, input: &str) -> ParseResult {
+            self.state.reset_to(input, 0);
+            ParseResult::from_parse((), &mut self.state)
+        }
+
+        pub fn residue(&self) -> NarseseOptions<Budget, Term, Punctuation, Stamp, Truth> {
+            self.state.mid_result.clone()
+        }
+    }
+}
